@@ -343,4 +343,19 @@ SEGMENTS = {
         ],
         file="src/dev/cache.rs",
     ),
+    # ---- the raw-pointer request builders: table block write, top-table load
+    "FT": dict(
+        parts=[
+            dict(fn="flush_table", start="FULL",
+                 sig="pub(crate) fn seg_ft<B: Table>(&self, t: &B, start: u32, size: usize) -> Qcow2Result<()>",
+                 await_calls=["call_write"],
+                 rewrites=[(r"self\.k_call_write\(", "self.k_call_write_q(")]),
+            dict(fn="load_top_table", start="FULL",
+                 sig="pub(crate) fn seg_lt<B: Table>(&self, top: &KLock<B>, off: u64) -> Qcow2Result<usize>",
+                 await_calls=["call_read"],
+                 rewrites=[(r"top\.write\(\)\.await", "top.kwrite()"),
+                           (r"self\.k_call_read\(", "self.k_call_read_fill(")]),
+        ],
+        file="src/dev/cache.rs",
+    ),
 }
